@@ -53,9 +53,9 @@ func init() {
 }
 
 func c20Run(ctx *core.Ctx) {
-	maxOrder, nConc, nReplay := 3, 300, 300
+	maxOrder, nConc, nReplay := 3, 1500, 1500
 	if ctx.Thorough() {
-		maxOrder, nConc, nReplay = 4, 3000, 5000
+		maxOrder, nConc, nReplay = 5, 20000, 30000
 	}
 	if ctx.Part != "race" && ctx.Part != "norace" {
 		nConc /= 3
